@@ -215,6 +215,12 @@ pub fn generate(seed: u64, tier: &str, sink: &mut Sink) {
             for d in deadlines {
                 cfgs.push(Cfg { addrs: a.clone(), mapped: vec![], deadline_ms: d, ct_ms: CONNECT_TIMEOUT_MS });
             }
+            // an overall deadline that has already expired when the race starts: every attempt reports a
+            // timeout, and that is the error the caller gets (seed C17-seed6). (With a single address the
+            // fast path does not consult the deadline; what happens after the connection is C13's business.)
+            if a.len() >= 2 {
+                cfgs.push(Cfg { addrs: a.clone(), mapped: vec![], deadline_ms: Some(0), ct_ms: CONNECT_TIMEOUT_MS });
+            }
             // connect timeouts shorter than the race: every attempt has its own full connect timeout
             if a.len() >= 3 {
                 for ct in [300u64, 500] {
@@ -237,6 +243,16 @@ pub fn generate(seed: u64, tier: &str, sink: &mut Sink) {
         cfgs.push(Cfg { mapped: vec![], addrs: vec![(true, 'b'), (false, 'b'), (false, 'a')], deadline_ms: None, ct_ms: 300 });
         cfgs.push(Cfg { mapped: vec![], addrs: vec![(true, 'b'), (false, 'b'), (true, 'b'), (false, 'a')], deadline_ms: None, ct_ms: 500 });
         cfgs.push(Cfg { mapped: vec![], addrs: vec![(true, 'r'), (false, 'b'), (true, 'b'), (false, 'a')], deadline_ms: Some(5000), ct_ms: 300 });
+        // an overall deadline that has already expired when the race starts (seed C17-seed6)
+        for a in [
+            vec![(true, 'a'), (false, 'a')],
+            vec![(false, 'r'), (true, 'b')],
+            vec![(true, 'b'), (false, 'b')],
+            vec![(true, 'a'), (true, 'r'), (false, 'b')],
+            vec![(false, 'a'), (false, 'a'), (true, 'a'), (true, 'a')],
+        ] {
+            cfgs.push(Cfg { mapped: vec![], addrs: a, deadline_ms: Some(0), ct_ms: CONNECT_TIMEOUT_MS });
+        }
     }
     // IPv4-mapped IPv6 addresses in the resolver's answer: IPv6 addresses for the order of the race
     {
@@ -339,6 +355,10 @@ pub fn generate(seed: u64, tier: &str, sink: &mut Sink) {
                 }
             }
             if !any_accept && generous && !(obs.line.starts_with("err:refused") || obs.line.starts_with("err:timedout") || (cfg.addrs.is_empty() && obs.line.starts_with("err:nodns"))) {
+                return Err(("error-not-from-an-attempt".into(), format!("{:?}: {}", spec, obs.line)));
+            }
+            // whatever the deadline: the fallback meant for an empty resolver answer is not an attempt's error
+            if !cfg.addrs.is_empty() && obs.line.starts_with("err:nodns") {
                 return Err(("error-not-from-an-attempt".into(), format!("{:?}: {}", spec, obs.line)));
             }
             // an unresponsive predecessor costs about one race interval each, not a connect timeout
